@@ -429,7 +429,7 @@ func c02HandOver(run *core.Run, pfx, what string, r *c02Runner) {
 			}
 		}
 	})
-	run.Check(pfx+"/K10/"+what+"-panic-detection-value-independent", "whether the handler panicked is decided in the goroutine's deferred function by a completion flag - a bool local that is false while the handler runs and set only after it returned - and not by the value recover() returns (under this module's go directive recover() is nil for panic(nil), e.g. panic(err) with a nil err: the panic would be stopped but neither forwarded nor followed by close(done), and the request waits out the whole timeout); recover() is called on every path of the panic arm", func(o *core.O) {
+	run.Check(pfx+"/K10/"+what+"-panic-detection-value-independent", "whether the handler panicked is decided in the goroutine's deferred function by a completion flag - a bool local of the goroutine (or of the per-request state it is started with) that is false while the handler runs and set only after it returned - and not by the value recover() returns (under this module's go directive recover() is nil for panic(nil), e.g. panic(err) with a nil err: the panic would be stopped but neither forwarded nor followed by close(done), and the request waits out the whole timeout); recover() is called on every path of the panic arm", func(o *core.O) {
 		if !need(o) {
 			return
 		}
